@@ -283,7 +283,67 @@ def hyp_job(job):
     return acc
 
 
+def es_vendor_responses(acc: Acc):
+    """Every AA55 command object the ES class builds (harvested by driving its methods with a recording stub) must accept
+    the conforming acknowledgement: response type = command | 0x80 (vendor exceptions as transcribed in vlib/siminv.py)."""
+    import goodwe
+    from goodwe.es import ES
+    from goodwe.inverter import OperationMode
+    from goodwe.protocol import ProtocolResponse
+    from vlib import siminv
+    from vlib.harness import run_sync
+    sent = []
+
+    def mk(fw):
+        inv = ES("192.0.2.1", 8899)
+
+        async def fake(command):
+            sent.append(command)
+            return ProtocolResponse(bytes(7) + bytes.fromhex("300030000064000000640000") + bytes(2), command)
+        inv._read_from_socket = fake
+        inv.serial_number, inv.arm_version, inv.dsp1_version = "95048ESU000W0000", fw, 22
+        return inv
+
+    for fw in (0, 7, 14):
+        inv = mk(fw)
+        for mode in (0, 1, 2, 3, 98, 99):
+            try:
+                run_sync(inv.set_operation_mode(OperationMode(mode), 40, 80))
+            except Exception:
+                pass
+        for coro in (inv.set_grid_export_limit(1234), inv.set_ongrid_battery_dod(30), inv._reset_inverter(), inv.read_device_info(),
+                     inv.read_runtime_data(), inv.read_settings_data(), inv.write_setting("eco_mode_2_switch", 0),
+                     inv.read_setting("eco_mode_1")):
+            try:
+                run_sync(coro)
+            except Exception:
+                pass
+    seen = set()
+    for cmd in sent:
+        req = cmd.request_bytes()
+        if req[:2] != b"\xaa\x55" or req in seen:
+            continue
+        seen.add(req)
+        code = req[4:6]
+        rtype = siminv.AA55_ACK_TYPES.get(code, bytes((code[0], code[1] | 0x80)))
+        for payload in ((b"\x06",) if code[0] != 1 else (bytes(16), b"\xff" * 86)):
+            frame = rw.aa55_response(rtype, payload)
+            acc.case()
+            acc.nontrivial("es-vendor", req, payload)
+            case = {"es_vendor": True, "request": req, "frame": frame}
+            try:
+                ok = cmd.validator(frame)
+            except Exception as ex:
+                acc.fail("C02|aa55|es-vendor|validator-raised|%s" % type(ex).__name__, "%r for %s" % (ex, frame.hex()), case)
+                continue
+            if ok is not True:
+                acc.fail("C02|aa55|es-vendor|refused|%s" % code.hex(), "conforming acknowledgement %s to the ES command %s is refused" % (frame.hex(), req.hex()), case)
+    acc.cls("es_vendor_commands", len(seen))
+
+
 def run(ctx):
+    es_vendor_responses(ctx.acc)
+    ctx.engines.append("every AA55 command object built by the ES class vs. its conforming acknowledgement")
     jobs = [("read", lo, min(126, lo + 8)) for lo in range(1, 126, 8)]
     jobs += [("aa55len", lo, min(256, lo + 16)) for lo in range(0, 256, 16)]
     step = 4096 if ctx.quick else 1024
@@ -298,6 +358,9 @@ def run(ctx):
 
 
 def replay(ctx, case):
+    if case.get("es_vendor"):
+        es_vendor_responses(ctx.acc)
+        return
     if case.get("e2e") or "keep" in case:
         _apply(ctx.acc, case, check_e2e)
     _apply(ctx.acc, case)
